@@ -307,7 +307,8 @@ class FlatSet : private Compare {
   template <class K, typename std::enable_if<!std::is_same<T, K>::value && has_is_transparent<Compare>::value,
                                              bool>::type = true>
   size_type count(const K &k) const {
-    return contains(k);
+    // several elements may be equivalent to a key of another type
+    return static_cast<size_type>(std::distance(lower_bound(k), upper_bound(k)));
   }
 #endif
 
